@@ -18,6 +18,35 @@ def typeofLit : Lit → String
 def truthyC : Lit → Bool
   | .undef => false | .null => false | .bool b => b | .int i => i != 0 | .half => true | .str s => !s.isEmpty | .big n => n != 0
 
+/-- ToNumber on the literals of the sub-domain: `some none` is NaN -/
+def toNumC : Lit → Option (Option Int)
+  | .int x => some (some x)
+  | .bool b => some (some (if b then 1 else 0))
+  | .str s => if s == "\x00out-of-domain" then none else if s.isEmpty then some (some 0) else if s.all Char.isDigit then some (s.toNat?.map Int.ofNat) else
+      (if s.any (fun c => c == ' ' || c == '.' || c == 'e' || c == 'x' || c == '-' || c == '+' || c == 'I' || c == 'n') then none else some none)
+  | _ => none
+
+/-- IsLooselyEqual between literals of different kinds (numbers, strings, booleans; null and undefined equal only each other) -/
+def looseC (a b : Lit) : Option Lit :=
+  match a, b with
+  | .undef, .int _ | .undef, .str _ | .undef, .bool _ | .null, .int _ | .null, .str _ | .null, .bool _ => some (.bool false)
+  | .int _, .undef | .str _, .undef | .bool _, .undef | .int _, .null | .str _, .null | .bool _, .null => some (.bool false)
+  | .big _, _ => some ood
+  | _, .big _ => some ood
+  | .half, _ => some ood
+  | _, .half => some ood
+  | a, b =>
+    match toNumC a, toNumC b with
+    | some (some x), some (some y) => some (.bool (x == y))
+    | some _, some _ => some (.bool false)
+    | _, _ => some ood
+
+def sameKind : Lit → Lit → Bool
+  | .int _, .int _ | .str _, .str _ | .bool _, .bool _ | .undef, .undef | .null, .null | .big _, .big _ | .half, .half => true
+  | .int _, .half | .half, .int _ => true
+  | .big _, _ | _, .big _ => true
+  | _, _ => false
+
 def binopC (op : BinOp) (a b : Lit) : Option Lit :=
   if a == ood || b == ood then some ood else
   match op, a, b with
@@ -62,6 +91,22 @@ def binopC (op : BinOp) (a b : Lit) : Option Lit :=
   | .seq, .null, .undef => some (.bool false)
   | .eq, .undef, .null => some (.bool true)
   | .eq, .null, .undef => some (.bool true)
+  | .ne, .undef, .null => some (.bool false)
+  | .ne, .null, .undef => some (.bool false)
+  | .eq, .undef, .undef => some (.bool true)
+  | .eq, .null, .null => some (.bool true)
+  | .ne, .undef, .undef => some (.bool false)
+  | .ne, .null, .null => some (.bool false)
+  | .sne, .undef, .undef => some (.bool false)
+  | .sne, .null, .null => some (.bool false)
+  | .sne, .undef, .null => some (.bool true)
+  | .sne, .null, .undef => some (.bool true)
+  | .eq, .bool x, .bool y => some (.bool (x == y))
+  | .ne, .bool x, .bool y => some (.bool (x != y))
+  | .eq, a, b => looseC a b
+  | .ne, a, b => (looseC a b).map (fun r => match r with | .bool v => .bool (!v) | x => x)
+  | .seq, a, b => if sameKind a b then some ood else some (.bool false)
+  | .sne, a, b => if sameKind a b then some ood else some (.bool true)
   | _, _, _ => some ood
 
 def unopC (op : UnOp) (l : Lit) : Option Lit :=
